@@ -243,6 +243,51 @@ func (e *Engine) Guarded(f *ssa.Function, r effects.Root) bool {
 	return ok
 }
 
+// readsBeyondGuard: is the incoming value of r read by anything other than
+// checkInitialized's own inspection?
+func (e *Engine) readsBeyondGuard(f *ssa.Function, r effects.Root, depth int) bool {
+	fi := e.A.Info[f]
+	if !fi.Sum.ReadsInitial.HasRoot(r) {
+		return false
+	}
+	if depth > 10 {
+		return true
+	}
+	for _, b := range f.Blocks {
+		for _, in := range b.Instrs {
+			for _, ev := range fi.Events[in] {
+				if ev.Op != effects.OpReadInit || ev.Loc.Root != r || !fi.Sum.ReadsInitial.Has(ev.Loc) {
+					continue
+				}
+				if ev.Via == nil {
+					return true
+				}
+				c, ok := in.(*ssa.Call)
+				if !ok {
+					return true
+				}
+				h := c.Common().StaticCallee()
+				if h == e.Guard {
+					continue
+				}
+				if h == nil || !e.P.InRepo(h) {
+					return true
+				}
+				hrs := e.calleeRootsFor(fi, c, h, r)
+				if len(hrs) == 0 {
+					return true // interior or non-Point position: a real read
+				}
+				for _, hr := range hrs {
+					if e.readsBeyondGuard(h, hr, depth+1) {
+						return true
+					}
+				}
+			}
+		}
+	}
+	return false
+}
+
 func rootName(f *ssa.Function, r effects.Root) string {
 	n := f.Params[r.Index].Name()
 	if r.Kind == effects.KElem {
@@ -262,7 +307,7 @@ func (e *Engine) GInit() []report.Obligation {
 		fi := e.A.Info[f]
 		for _, r := range pointRoots(f) {
 			name := rootName(f, r)
-			isInput := fi.Sum.ReadsInitial.HasRoot(r)
+			isInput := e.readsBeyondGuard(f, r, 0)
 			if isInput {
 				o := report.Obligation{Rule: "G-INIT", Key: "G-INIT/" + load.ShortName(f) + "/" + name, Config: e.cfg(), Pos: e.P.Rel(f.Pos()), OK: true,
 					Detail: "every read of this Point input is dominated by checkInitialized on it"}
@@ -716,18 +761,31 @@ func (e *Engine) errorClasses(f *ssa.Function, depth int) []string {
 		}
 		sites = append(sites, site{lits: cdg.Closure(rs.Instr.Block())})
 	}
+	// iterate: a site whose remaining condition is a single literal makes the
+	// negation of that literal redundant in the other sites
 	single := map[CtrlDep]bool{}
-	for _, s := range sites {
-		if len(s.lits) == 1 && s.fwd == nil {
-			single[s.lits[0]] = true
+	for changed := true; changed; {
+		changed = false
+		for i := range sites {
+			var rest []CtrlDep
+			for _, d := range sites[i].lits {
+				if !single[CtrlDep{If: d.If, True: !d.True}] {
+					rest = append(rest, d)
+				}
+			}
+			if len(rest) != len(sites[i].lits) {
+				sites[i].lits = rest
+				changed = true
+			}
+			if len(rest) == 1 && sites[i].fwd == nil && !single[rest[0]] {
+				single[rest[0]] = true
+				changed = true
+			}
 		}
 	}
 	for _, s := range sites {
 		var conj []string
 		for _, d := range s.lits {
-			if single[CtrlDep{If: d.If, True: !d.True}] {
-				continue
-			}
 			cs := e.classify(f, d, depth)
 			conj = append(conj, strings.Join(cs, " ∨ "))
 		}
